@@ -165,6 +165,30 @@ pub fn run_seed(base: u64, property: &str, campaign: &str, idx: u64) -> u64 {
 pub static SUT_NONDETERMINISTIC: AtomicBool = AtomicBool::new(false);
 /// things that must never happen inside the harness itself (a simulated device pipe that is full)
 pub static HARNESS_FAULTS: AtomicU64 = AtomicU64::new(0);
+/// completed simulated runs (all campaigns); the watchdog in main.rs looks at it
+pub static PROGRESS: AtomicU64 = AtomicU64::new(0);
+
+/// A tree under test that spins for ever inside one call (a reader looping on a condition the
+/// simulated devices never fulfil, say) makes no driver call the simulator could answer with an
+/// unplug, so no run bound can end it. That is not a verdict about any property: after
+/// `VERIF_WATCHDOG_S` seconds (default 300) of wall-clock time without a single finished run the
+/// process stops with exit 2. Real time is read here and nowhere near a decision.
+pub fn start_watchdog() {
+  let limit: u64 = std::env::var("VERIF_WATCHDOG_S").ok().and_then(|v| v.parse().ok()).unwrap_or(300);
+  std::thread::spawn(move || {
+    let mut last = PROGRESS.load(Ordering::Relaxed); let mut idle = 0u64;
+    loop {
+      std::thread::sleep(std::time::Duration::from_secs(5));
+      let now = PROGRESS.load(Ordering::Relaxed);
+      if now != last { last = now; idle = 0; continue; }
+      idle += 5;
+      if idle >= limit {
+        println!("harness error: no simulated run finished within {} s of wall-clock time: the tree under test spins inside a single call without reaching the simulator (or the harness is stuck); no verdict", limit);
+        std::process::exit(2);
+      }
+    }
+  });
+}
 
 pub fn run_check(spec: &CheckSpec, base_seed: u64, thorough: bool, threads: usize, runs_override: Option<u64>, write_evidence: bool) -> CheckReport {
   let t0 = Instant::now();
@@ -220,6 +244,7 @@ pub fn run_check(spec: &CheckSpec, base_seed: u64, thorough: bool, threads: usiz
               let seed = run_seed(base_seed, spec.property, &cname, idx);
               let mut ctx = Ctx { thorough, want_sample: idx < 3, acc: &mut acc };
               let r = camp.run(seed, idx, &mut ctx);
+              PROGRESS.fetch_add(1, Ordering::Relaxed);
               my_runs += 1;
               my_evals += r.evals;
               my_digest = my_digest.wrapping_add(mix(idx, r.digest));
